@@ -19,7 +19,7 @@ import (
 // returns before `size += n` under-reports the value by the varint it has already consumed.
 
 func init() {
-	register(&Rule{ID: "R10.4", Props: []string{"C10", "C08", "C13"}, Floor: 20,
+	register(&Rule{ID: "R10.4", Props: []string{"C10", "C08", "C13", "C01"}, Floor: 20,
 		Doc: "decoder size accounting: every byte count obtained from decodeType / decodeSize / compactint.Reverse* on the way to a successful return is part of the returned size",
 		Run: runR10_4})
 }
